@@ -336,6 +336,143 @@ async fn scenario(mon: &Monitor, rng: &mut Rng, idx: u64) {
     }
 }
 
+/// Part (c): the node list in a reply to a remote find-node / find-value / get request, over
+/// everything the replying node knows (table plus connected peers), on a MemNet of real nodes.
+async fn remote_replies(mon: &Monitor, rng: &mut Rng) {
+    use checks::net::*;
+    use memnet::*;
+    use saorsa_core::dht_network_manager::{DhtNetworkOperation, DhtNetworkResult};
+    use std::time::Duration;
+    let n = rng.urange(2, mon.by_tier(10, 16));
+    let topo = *rng.pick(&TOPOS);
+    let cfg = NodeCfg { request_timeout: Duration::from_secs(2), connection_timeout: Duration::from_secs(1), aligned_ids: rng.chance(0.8), ..Default::default() };
+    let Ok(w) = World::build(rng, n, topo, &cfg).await else {
+        mon.inconclusive("world build failed");
+        return;
+    };
+    // some lookups first so that tables and connected-peer maps diverge
+    for _ in 0..rng.urange(0, 3) {
+        let x = rng.usize_below(n);
+        let _ = w.nodes[x].mgr.find_closest_nodes(&rng.arr32(), 8).await;
+    }
+    let ptid = rng.arr32();
+    let phex = hex::encode(ptid);
+    let paddr = sim_addr(n + 3);
+    let mut prx = w.hub.register_puppet(ptid, paddr);
+    for q in 0..rng.urange(2, 8) {
+        let r = rng.usize_below(n);
+        let rn = &w.nodes[r];
+        let _ = rn.mgr.connect_to_peer(&paddr.to_string()).await;
+        settle(Duration::from_millis(10)).await;
+        // what the replier knows
+        let rt = rn.mgr.verif_routing_snapshot().await;
+        let peers = rn.mgr.verif_dht_peers().await;
+        let mut known: BTreeSet<[u8; 32]> = BTreeSet::new(); // by position
+        for (id, _) in &rt {
+            known.insert(*id);
+        }
+        for (_pid, k, conn, addrs) in &peers {
+            if *conn && !addrs.is_empty() {
+                known.insert(*k);
+            }
+        }
+        let ppos = pos_of(&phex);
+        known.remove(&ppos);
+        known.remove(&rn.pos);
+        let key = match rng.below(3) {
+            0 => rn.pos,
+            1 => w.nodes[rng.usize_below(n)].pos,
+            _ => rng.arr32(),
+        };
+        let op = match rng.below(3) {
+            0 => DhtNetworkOperation::FindNode { key },
+            1 => DhtNetworkOperation::FindValue { key },
+            _ => DhtNetworkOperation::Get { key },
+        };
+        let opn = op_name(&op).0;
+        let id = format!("c02-{q}");
+        while prx.try_recv().is_ok() {}
+        w.hub.inject(ptid, &rn.tid_hex, dht_request_frame(&phex, &id, &rn.tid_hex, op), Duration::ZERO);
+        settle(Duration::from_millis(20)).await;
+        let mut reply = None;
+        while let Ok((_f, frame)) = prx.try_recv() {
+            if let (_, _, Some(m)) = summarize(&frame) {
+                if m.message_id == id {
+                    reply = m.result.clone();
+                }
+            }
+        }
+        mon.eval();
+        let ctx = |extra: serde_json::Value| json!({"n": n, "topology": format!("{topo:?}"), "aligned_ids": cfg.aligned_ids, "replier": hex8(&rn.tid), "op": opn, "key": hex8(&key), "known": known.len(), "detail": extra});
+        let nodes = match reply {
+            Some(DhtNetworkResult::NodesFound { nodes, .. }) => nodes,
+            Some(DhtNetworkResult::GetNotFound { .. }) => {
+                if !known.is_empty() {
+                    mon.violation("reply.manager/empty-although-peers-known", ctx(json!({})));
+                }
+                continue;
+            }
+            Some(other) => {
+                mon.count(&format!("reply.manager.other.{}", result_name(&other)), 1);
+                continue;
+            }
+            None => {
+                mon.count("reply.manager.no-reply", 1);
+                continue;
+            }
+        };
+        mon.count("reply.manager.judged", 1);
+        if known.len() >= 2 {
+            mon.case(("reply.manager", opn, known.len().min(12), nodes.len()));
+        }
+        if nodes.len() > 20 {
+            mon.violation("reply.manager/over-cap", ctx(json!({"len": nodes.len()})));
+        }
+        // identity of each named entry: transport id, hex(dht key) or app id of a real node
+        let mut named: Vec<[u8; 32]> = Vec::new();
+        let mut unknown = 0;
+        for nd in &nodes {
+            match w.spell.get(&nd.peer_id) {
+                Some(&i) => named.push(w.nodes[i].pos),
+                None if nd.peer_id == phex => named.push(ppos),
+                None => unknown += 1,
+            }
+        }
+        if unknown > 0 {
+            mon.violation("reply.manager/names-unknown-id", ctx(json!({"unknown": unknown})));
+            continue;
+        }
+        let set: BTreeSet<[u8; 32]> = named.iter().copied().collect();
+        if set.len() != named.len() {
+            let spellings: BTreeSet<usize> = nodes.iter().map(|n| n.peer_id.len()).collect();
+            mon.violation("reply.manager/one-peer-listed-twice", ctx(json!({"entries": named.len(), "distinct": set.len(), "id_lengths": spellings})));
+            continue;
+        }
+        if set.contains(&ppos) {
+            mon.violation("reply.manager/names-the-requester", ctx(json!({})));
+        }
+        if set.contains(&rn.pos) {
+            mon.violation("reply.manager/names-the-replier", ctx(json!({})));
+        }
+        if named.windows(2).any(|p| xor(&p[0], &key) > xor(&p[1], &key)) {
+            mon.violation("reply.manager/unsorted", ctx(json!({})));
+        }
+        if let Some(f) = named.iter().find(|p| !known.contains(*p) && **p != ppos && **p != rn.pos) {
+            mon.violation("reply.manager/names-peer-the-replier-does-not-know", ctx(json!({"peer": hex8(f)})));
+        }
+        // exactness: the answer is a prefix of everything known, sorted
+        let expect = sorted_prefix(&known, &key, named.len());
+        let got: Vec<[u8; 32]> = named.iter().copied().filter(|p| *p != ppos && *p != rn.pos).collect();
+        if got.len() == named.len() && got != expect {
+            mon.violation("reply.manager/not-closest", ctx(json!({"got": got.iter().map(|g| hex8(g)).collect::<Vec<_>>(), "expected": expect.iter().map(|g| hex8(g)).collect::<Vec<_>>()})));
+        }
+        if named.is_empty() && !known.is_empty() {
+            mon.violation("reply.manager/empty-although-peers-known", ctx(json!({})));
+        }
+    }
+    w.shutdown().await;
+}
+
 fn main() {
     let mon = Monitor::new("C02", "exploration");
     mon.set_rule("case = one query (find_nodes / FindNode reply / FindValue reply) on one table state reached by a seeded add/join/re-add/self-add/fail/evict history; non-trivial when the table holds >=2 peers in >=2 buckets and n>=1; distinct by (api, bucket-population bitmap, target bucket, n)");
@@ -345,13 +482,23 @@ fn main() {
         let rt = checks::rt(false);
         rt.block_on(async {
             for k in 0..per_shard {
-                if mon.time_up() {
+                if mon.spent(0.6) {
                     break;
                 }
                 scenario(&mon, &mut rng, k).await;
                 mon.count("tables", 1);
             }
         });
+        // part (c): replies of real nodes (paused clock)
+        let worlds = mon.by_tier(25u64, 900);
+        for _ in 0..worlds {
+            if mon.time_up() {
+                break;
+            }
+            let rt = checks::rt(true);
+            rt.block_on(remote_replies(&mon, &mut rng));
+            mon.count("reply_worlds", 1);
+        }
     });
     mon.finish();
 }
